@@ -93,15 +93,23 @@ impl<T: LogVal + ?Sized> LogVal for &T {
 
 // ---- bodies -------------------------------------------------------------------
 
+// The bodies proper are not generic over the identity (one copy of the Bencher machinery per item
+// type instead of one per identity: the cold build of this crate took minutes otherwise).
 fn plain_body<const ID: usize>(b: Bencher) {
-    log(format!("E{ID}"));
-    b.bench(|| log(format!("C{ID}")));
+    plain_impl(ID, b)
 }
 
-fn arg_body<const ID: usize, T: LogVal>(b: Bencher, x: &T) {
-    log(format!("E{ID}"));
+#[inline(never)]
+fn plain_impl(id: usize, b: Bencher) {
+    log(format!("E{id}"));
+    b.bench(|| log(format!("C{id}")));
+}
+
+#[inline(never)]
+fn arg_body<T: LogVal>(id: usize, b: Bencher, x: &T) {
+    log(format!("E{id}"));
     let v = x.render();
-    b.bench(|| log(format!("C{ID}={v}")));
+    b.bench(|| log(format!("C{id}={v}")));
 }
 
 fn leak_strs(v: &[String]) -> Vec<&'static str> {
@@ -124,7 +132,7 @@ fn args_runner<const ID: usize>() -> BenchEntryRunner {
                     a.ints.clone()
                 },
                 |x| ToStringHelper(x).to_string(),
-                |b, x| arg_body::<ID, _>(b, x),
+                |b, x| arg_body(ID, b, x),
             ),
             // &'static [i64]: items by reference
             b'r' => st.runner(
@@ -134,7 +142,7 @@ fn args_runner<const ID: usize>() -> BenchEntryRunner {
                     s
                 },
                 |x| ToStringHelper(x).to_string(),
-                |b, x| arg_body::<ID, _>(b, x),
+                |b, x| arg_body(ID, b, x),
             ),
             // Range<i64>
             b'g' => st.runner(
@@ -144,7 +152,7 @@ fn args_runner<const ID: usize>() -> BenchEntryRunner {
                     start..start + a.ints.len() as i64
                 },
                 |x| ToStringHelper(x).to_string(),
-                |b, x| arg_body::<ID, _>(b, x),
+                |b, x| arg_body(ID, b, x),
             ),
             // Vec<u8>
             b'u' => st.runner(
@@ -153,7 +161,7 @@ fn args_runner<const ID: usize>() -> BenchEntryRunner {
                     a.ints.iter().map(|&v| v as u8).collect::<Vec<u8>>()
                 },
                 |x| ToStringHelper(x).to_string(),
-                |b, x| arg_body::<ID, _>(b, x),
+                |b, x| arg_body(ID, b, x),
             ),
             // Debug-only item type: names through the Debug fallback
             b'd' => st.runner(
@@ -162,7 +170,7 @@ fn args_runner<const ID: usize>() -> BenchEntryRunner {
                     a.ints.iter().map(|&v| Dbg(v)).collect::<Vec<Dbg>>()
                 },
                 |x| ToStringHelper(x).to_string(),
-                |b, x| arg_body::<ID, _>(b, x),
+                |b, x| arg_body(ID, b, x),
             ),
             // Vec<char>
             b'c' => st.runner(
@@ -171,7 +179,7 @@ fn args_runner<const ID: usize>() -> BenchEntryRunner {
                     a.strs.iter().map(|s| s.chars().next().expect("char")).collect::<Vec<char>>()
                 },
                 |x| ToStringHelper(x).to_string(),
-                |b, x| arg_body::<ID, _>(b, x),
+                |b, x| arg_body(ID, b, x),
             ),
             // Vec<String>: names alias the items
             b'S' => st.runner(
@@ -180,7 +188,7 @@ fn args_runner<const ID: usize>() -> BenchEntryRunner {
                     a.strs.clone()
                 },
                 |x| ToStringHelper(x).to_string(),
-                |b, x| arg_body::<ID, _>(b, x),
+                |b, x| arg_body(ID, b, x),
             ),
             // Vec<&'static str>: the names slice is the items slice
             b's' => st.runner(
@@ -189,7 +197,7 @@ fn args_runner<const ID: usize>() -> BenchEntryRunner {
                     leak_strs(&a.strs)
                 },
                 |x| ToStringHelper(x).to_string(),
-                |b, x| arg_body::<ID, _>(b, x),
+                |b, x| arg_body(ID, b, x),
             ),
             // &'static [&'static str]: the names slice is the user's slice
             b'l' => st.runner(
@@ -199,7 +207,7 @@ fn args_runner<const ID: usize>() -> BenchEntryRunner {
                     s
                 },
                 |x| ToStringHelper(x).to_string(),
-                |b, x| arg_body::<ID, _>(b, x),
+                |b, x| arg_body(ID, b, x),
             ),
             // slice::Iter<&str>
             b't' => st.runner(
@@ -209,7 +217,7 @@ fn args_runner<const ID: usize>() -> BenchEntryRunner {
                     s.iter()
                 },
                 |x| ToStringHelper(x).to_string(),
-                |b, x| arg_body::<ID, _>(b, x),
+                |b, x| arg_body(ID, b, x),
             ),
             // Vec<Box<str>>
             b'b' => st.runner(
@@ -218,7 +226,7 @@ fn args_runner<const ID: usize>() -> BenchEntryRunner {
                     a.strs.iter().map(|s| s.clone().into_boxed_str()).collect::<Vec<Box<str>>>()
                 },
                 |x| ToStringHelper(x).to_string(),
-                |b, x| arg_body::<ID, _>(b, x),
+                |b, x| arg_body(ID, b, x),
             ),
             // Vec<Cow<'static, str>>
             b'w' => st.runner(
@@ -237,7 +245,7 @@ fn args_runner<const ID: usize>() -> BenchEntryRunner {
                         .collect::<Vec<_>>()
                 },
                 |x| ToStringHelper(x).to_string(),
-                |b, x| arg_body::<ID, _>(b, x),
+                |b, x| arg_body(ID, b, x),
             ),
             k => panic!("unknown argument kind {}", k as char),
         }
@@ -255,11 +263,20 @@ fn opts_fn<const ID: usize>() -> BenchOptions<'static> {
 macro_rules! tables {
     ($($n:literal)*) => {
         static PLAIN: [fn(Bencher); N_IDS] = [$(plain_body::<$n>),*];
-        static ARGS_RUNNER: [fn() -> BenchEntryRunner; N_IDS] = [$(args_runner::<$n>),*];
         static OPTS_FN: [fn() -> BenchOptions<'static>; N_IDS] = [$(opts_fn::<$n>),*];
     };
 }
 with_ids!(tables);
+
+/// Entries that take arguments have identities below this bound (each identity instantiates
+/// `BenchArgs::runner` for every container kind).
+pub const N_ARG_IDS: usize = 96;
+macro_rules! arg_tables {
+    ($($n:literal)*) => {
+        static ARGS_RUNNER: [fn() -> BenchEntryRunner; N_ARG_IDS] = [$(args_runner::<$n>),*];
+    };
+}
+with_arg_ids!(arg_tables);
 
 // ---- the type menu --------------------------------------------------------------
 
@@ -345,6 +362,7 @@ fn mk_meta(m: &crate::spec::Meta) -> EntryMeta {
 
 fn runner(id: usize, has_args: bool) -> BenchEntryRunner {
     if has_args {
+        assert!(id < N_ARG_IDS, "entries with arguments need an identity below {N_ARG_IDS}");
         ARGS_RUNNER[id]()
     } else {
         BenchEntryRunner::Plain(PLAIN[id])
